@@ -1,23 +1,31 @@
 SPEC = dict(
     id="C15",
     bin="c15",
+    bins=["c15", "c15f"],
+    props=["C15/Props.v", "C15/FloatProps.v"],
     coq_dir="C15",
-    coq_targets=["C15/Proofs.vo", "C15/Examples.vo"],
-    allowed_axioms=[],
+    coq_targets=["C15/Proofs.vo", "C15/Examples.vo", "C15/FloatProofs.vo", "C15/FloatExamples.vo"],
+    allowed_axioms=["ClassicalDedekindReals.sig_forall_dec", "ClassicalDedekindReals.sig_not_dec",
+                    "FunctionalExtensionality.functional_extensionality_dep", "Classical_Prop.classic"],
     level_text=("Unbounded Coq theorems (all i32 / all byte patterns) about an executable model of font-types' "
                 "fixed-point and scalar kernels: mul/div/mul_div = exact quotient rounded half away from zero whenever "
                 "representable, saturation on division by zero, big-endian round trips in both directions for every "
                 "width and the 24-bit types, 24-bit saturation, 16.16->2.14/26.6/i32 conversions as the spec prescribes. "
-                "The model is tied to the code on every run by evaluating it with vm_compute on ~45k boundary-dense and random "
-                "operand tuples that the real functions were run on. Float conversions (to_f32/to_f64/from_*; OtRound) are "
-                "checked on the implementation only (exhaustive for the 16-bit types) — partial for those."),
+                "Float clauses: symbolic Flocq proofs that to_f64/to_f32 are exact and from_fXX(to_fXX(x)) = x for ALL values of Fixed, "
+                "F26Dot6 (binary64) and F2Dot14/F4Dot12/F6Dot10 (binary32), and that from_fXX rounds to nearest whenever its own +-0.5 "
+                "addition is exact (sharp: the F-3 knife-edge witness). The models are tied to the code on every run by evaluating them "
+                "with vm_compute on ~60k boundary-dense and random operand tuples the real functions were run on (floats bit-exactly)."),
     level_note=("Trusted: Coq kernel; the hand-written model coq/C15/Model.v (its agreement with font-types is checked, not proved); "
-                "the harness generator. Float conversion theorems are not part of the Coq development: the evidence lists them under not_covered."),
+                "the harness generator. Float theorems rest on Flocq and therefore on the standard-library classical-reals axioms named in allowed_axioms; "
+                "that rustc compiles f32/f64 * + - / floor and `as` to the IEEE-754 round-to-nearest-even operations in source order is assumed (and checked bit-exactly by the correspondence)."),
     technique="Coq proof (lia/Z arithmetic, bit lemmas) over hand-written Gallina model + vm_compute correspondence with font-types",
     modelled=["font-types/src/fixed.rs: fixed_impl! round/floor/fract/abs/neg/add/sub/saturating_*, fixed_mul_div! Mul/Div/mul_div, Fixed::{from_i32,to_i32,to_f26dot6,to_f2dot14}, F2Dot14::to_fixed",
               "font-types/src/int24.rs, uint24.rs: new, checked_new, to_be_bytes, from_be_bytes",
-              "font-types/src/raw.rs: to_be_bytes/from_be_bytes of 16/32/64-bit scalars"],
-    not_covered=["float_conv! to_f32/to_f64/from_f32/from_f64 and write-fonts OtRound: implementation-only oracle (exhaustive over all 16-bit values; grid+random for 32-bit), no Coq theorem yet",
+              "font-types/src/raw.rs: to_be_bytes/from_be_bytes of 16/32/64-bit scalars",
+              "font-types/src/fixed.rs float_conv!: to_f32/to_f64/from_f32/from_f64 for all five fixed types (Flocq binary32/binary64)",
+              "write-fonts/src/round.rs OtRound for f64/f32 -> f64/f32/i16/u16"],
+    not_covered=["write-fonts OtRound: executable Flocq model tied by correspondence, no theorem beyond the model",
+                 "from_fXX nearest-rounding is proved only under the exact-addition hypothesis; general doubles at the +-0.5 knife edge violate it (known finding F-3)",
                  "Tag, GlyphId, NameId, Offset*, Version newtypes: plain wrappers over the modelled integer codecs"],
     assumptions=["Rust integer semantics as in coq/Lib/RustInt.v (two's complement `as` casts, arithmetic >> on signed types)"],
 )
